@@ -110,11 +110,32 @@ class Function:
             out = []
         return [c for c in out if c is not None and c >= 0]
 
+    def live_nodes(self):
+        """Node ids reachable from the CFG elements and terminators (a spliced-out call of a flattened helper
+        stays in the node table but is not part of the function any more)."""
+        live = set()
+        st = []
+        for b in self.blocks.values():
+            st.extend(b.elems)
+            if b.tc is not None and b.tc >= 0:
+                st.append(b.tc)
+        while st:
+            x = st.pop()
+            if x in live or x is None or x < 0 or self.nodes[x] is None:
+                continue
+            live.add(x)
+            st.extend(self.children(x))
+        return live
+
     def parent_map(self):
         if self._parent is None:
             pm = {}
+            live = self.live_nodes() if self.blocks else set()
+            for i in sorted(live):
+                for c in self.children(i):
+                    pm.setdefault(c, i)
             for i, nd in enumerate(self.nodes):
-                if nd is None:
+                if nd is None or i in live:
                     continue
                 for c in self.children(i):
                     pm.setdefault(c, i)
@@ -245,6 +266,12 @@ class Function:
             return (nd["r"], nd["f"])
         if nd.get("k") == "idx":
             return self.field_of(nd["b"])
+        if nd.get("k") == "ref" and nd.get("dk") == "var":
+            # a local that only holds the address of a sub-object (`p = &obj->field`)
+            from . import seq
+            j = seq._through_pointer_temp(self, i)
+            if j != i and self.strip(j) != i:
+                return self.field_of(j)
         return None
 
     def base_var(self, i):
@@ -388,6 +415,7 @@ class Program:
         self.protos = {}
         self.globals = {}
         self.records = {}
+        self.file_records = {}     # (defining file, tag) -> record: file-local structs may share a tag
         self.enums = {}
         self.enum_consts = {}
         self.units = []
@@ -413,6 +441,7 @@ class Program:
                     self.globals[(g["file"], g["name"])] = g
             for r in d["records"]:
                 self.records.setdefault(r["name"], r)
+                self.file_records.setdefault((r.get("file"), r["name"]), r)
             for e in d["enums"]:
                 self.enums.setdefault((e["file"], e["name"], tuple(sorted(e["consts"]))), e)
                 self.enum_consts.update(e["consts"])
@@ -425,6 +454,10 @@ class Program:
         if not os.environ.get("VERIF_NO_INLINE"):
             from . import inline
             inline.flatten(self)
+        self.deref_temps = 0
+        if not os.environ.get("VERIF_NO_NORMALIZE"):
+            from . import normalize
+            normalize.run(self)
 
     def flat(self, F):
         """View of F with the static helpers of its own file spliced in (abtverif/inline.py flat_copy)."""
